@@ -3,7 +3,8 @@
 Claimed by proof for the evaluator and its call sites (coq/Props/C11.v over Lang/ConstEval.v): every primitive
 operation of _eval_const is on the whitelist, unsupported nodes are rejected before anything below them is evaluated,
 only ValueError / TypeError / ZeroDivisionError leave the evaluator and only ValueError leaves its call sites; the
-evaluator's work is NOT bounded (C11_blowup_refuted).  Tie: the instrumented model (result + primitive trace) against
+size of every integer the evaluator builds is bounded (C11_fold_step_bounded, C11_fold_bits_bounded, C11_tower_refused -
+the repaired F-C11-exponent-blowup).  Tie: the instrumented model (result + primitive trace) against
 the real _eval_const with recording wrappers, on generated and hostile expressions.
 
 The part of C11 about the Python process itself (no file / process / network access, clean exception kinds and
@@ -25,8 +26,8 @@ from harness.props import c03 as L
 
 META = {
     "id": "C11",
-    "technique": "Coq proof (effect-instrumented model of _eval_const: whitelist of primitives by induction over expressions, reject-before-evaluate for unsupported nodes, exception kinds at the call sites, exponential blow-up witness family) + extracted-model correspondence (result and primitive trace vs the real _eval_const under recording wrappers) + audit-hook / canary / exception-kind observation of the real parse()+emit() on hostile scripts, real Python sources and noise (support only)",
-    "level_text": "Theorems C11_* (coq/Props/C11.v) are proved for all expressions and environments about the Gallina model of _eval_const and its call sites (cast / operator tables regenerated from parser.py on every run): whitelist of primitive operations, no evaluation below an unsupported node, error kinds; prompt termination is refuted for the evaluator by the family 2**2**n (listed finding). The clause about the Python process (no file, process, network or environment access; only ValueError/SyntaxError; termination) for arbitrary texts is outside the technique: it is observed with sys.addaudithook, canary files, exception kinds and a 30 s limit on generated hostile scripts, and labelled as support.",
+    "technique": "Coq proof (effect-instrumented model of _eval_const: whitelist of primitives by induction over expressions, reject-before-evaluate for unsupported nodes, exception kinds at the call sites, size bound of folded integers per operator and per expression) + extracted-model correspondence (result and primitive trace vs the real _eval_const under recording wrappers) + audit-hook / canary / exception-kind observation of the real parse()+emit() on hostile scripts, real Python sources and noise (support only)",
+    "level_text": "Theorems C11_* (coq/Props/C11.v) are proved for all expressions and environments about the Gallina model of _eval_const and its call sites (cast / operator tables regenerated from parser.py on every run): whitelist of primitive operations, no evaluation below an unsupported node, error kinds, size of the folded integers (at most max(_MAX_CONST_BITS, widest operand + 1) bits per operator application, linear in the input for whole arithmetic expressions; 2**2**n is refused beyond the bound) and a linear number of operations. The clause about the Python process (no file, process, network or environment access; only ValueError/SyntaxError; termination) for arbitrary texts is outside the technique: it is observed with sys.addaudithook, canary files, exception kinds and a 30 s limit on generated hostile scripts, and labelled as support.",
     "level_note": "Trusted: Coq kernel, translator harness/gen/safecasts.py, extraction, OCaml driver; for the observed part CPython's audit events (open, exec, import, os.*, subprocess.*, socket.*) as the definition of 'access'. The theorems are about the model; the correspondence bounds its distance from parser.py.",
     "design_ref": "DESIGN.md section 4 C11",
 }
@@ -49,9 +50,9 @@ HEADER = (
     "from Reduino.Core import pin_mode, digital_write, analog_write, digital_read, analog_read, OUTPUT, INPUT\n"
     "from Reduino.Communication import SerialMonitor\n"
     "from Reduino.Utils import sleep\n"
-    "from Reduino.Actuators import Led, Buzzer, Servo\n"
+    "from Reduino.Actuators import Led, Buzzer, Servo, RGBLed, DCMotor\n"
     "from Reduino.Displays import LCD\n"
-    "from Reduino.Sensors import Ultrasonic\n"
+    "from Reduino.Sensors import Ultrasonic, Button\n"
     "target(\"COM3\", upload=False)\n"
     "mon = SerialMonitor(9600)\n"
     "led = Led(13)\n"
@@ -72,6 +73,13 @@ POSITIONS = [
     "mon2 = SerialMonitor({H})", "bz.play_tone({H})", "bz.play_tone(440, {H})", "sv = Servo({H})", "sv = Servo(9, min_angle={H})",
     "{H}", "lcd.backlight({H})", "lcd.write(0, 0, {H})", "y = len({H})", "y = abs({H})", "y = max(1, {H})", "y = int({H})", "y = xs[{H}]",
     "try:\n    y = {H}\nexcept Exception:\n    y = 0", "while True:\n    sleep({H})", "while True:\n    y = {H}\n    mon.write(y)", "target({H})",
+    # every resolver that converts a folded constant with int() / float() (the sites of the repaired F-C11-int-of-infinity)
+    "btn = Button({H})", "bz2 = Buzzer({H})", "bz2 = Buzzer(8, default_frequency={H})", "mo = DCMotor({H}, 4, 5)", "mo = DCMotor(3, 4, {H})",
+    "rgb = RGBLed({H}, 10, 11)", "rgb = RGBLed(9, 10, {H})", "lcd2 = LCD(rs=12, en=11, d4=5, d5=4, d6=3, d7=2, backlight_pin={H})",
+    "lcd2 = LCD(rs=12, en=11, d4=5, d5=4, d6=3, d7=2, rw={H})", "lcd2 = LCD(i2c_addr={H})", "lcd2 = LCD(i2c_addr=0x27, cols={H}, rows=2)",
+    "lcd.progress(0, 50, width={H})", "lcd.progress(0, {H})", "lcd.progress(0, 5, {H})", "lcd.brightness({H})", "sv = Servo(9, max_pulse_us={H})",
+    "sv = Servo(9, max_angle={H})", "bz.play_tone({H}, 10)", "led.fade_in({H})", "led.fade_out(10, {H})", "lcd.animate('scroll', 0, 'hi', speed_ms={H})",
+    "us = Ultrasonic(7, {H})", "for i in range(1, {H}):\n    led.on()", "for i in range(0, 10, {H}):\n    led.on()", "bz.beep({H})", "bz.sweep(100, {H}, 50)",
 ]
 
 
@@ -144,7 +152,7 @@ def python_sources(rng, n):
 
 def check_script_result(ctx, stats, kind, text, r, canary):
     stats[f"script:{kind}:{r['exc'] or 'accepted'}"] += 1
-    case = {"kind": kind, "text": text if len(text) < 1500 else text[:1500] + "...<cut>"}
+    case = {"kind": kind, "text": text if len(text) < 200000 else text[:1500] + "...<cut>"}
     if r["exc"] == "Timeout":
         ctx.fail("transpiling did not terminate within the (generous) limit", case, "prompt termination", r, key="timeout")
     elif r["exc"] not in CLEAN:
@@ -193,9 +201,116 @@ def spine_unsupported(src):
     return False
 
 
-def depth_ok(src):
-    # the guard of the generated streams: no tower, no float overflowing to infinity (F-C11-int-of-infinity)
-    return src.count("(") < 40 and "1e308" not in src and "e999" not in src and "**" not in src.replace("** 0", "").replace("** 1", "").replace("** 2", "").replace("** 3", "").replace("** -1", "").replace("** 0.5", "")
+# ---- the regions the three repaired findings used to exclude from the generated streams
+# F-C11-exponent-blowup: towers, giant shifts, products of wide integers - as expressions and in every argument position
+BLOWUP_EXPRS = [
+    "9**9**9", "2**2**12", "2**2**16", "2**2**20", "2**2**40", "3**3**15", "7**7**7", "10**10**10", "(-2)**2**20", "-9**9**9", "2**(1 << 4000)",
+    "1 << (1 << 40)", "1 << 2**33", "True << (1 << 40)", "(-1) << (1 << 40)", "(1 << 4000) * (1 << 4000)", "(1 << 4095) ** 2", "(1 << 4095) ** (1 << 4095)",
+    "((1 << 4095) + (1 << 4095)) * 2", "x ** x ** x ** x", "255 ** 255 ** 255", "(2 ** 4000) ** (2 ** 4000)", "2 ** 4096 ** 2", "2 ** 10 ** 6", "1 << 10 ** 9",
+    "9**9**9 * 0", "0 * 9**9**9", "9**9**9 and 1", "0 and 9**9**9", "1 or 9**9**9", "1 if 9**9**9 else 2", "2 if 0 else 9**9**9", "[9**9**9]", "(1, 9**9**9)",
+    "int(9**9**9)", "float(2**2**20)", "str(9**9**9)", "bool(9**9**9)", "abs(-2**2**30)", "max(1, 2**2**30)", "min(2**2**30, 1)", "len(str(9**9**9))",
+    "f'{9**9**9}'", "9**9**9 < 1", "1 < 9**9**9 < 2", "-(9**9**9)", "not 9**9**9", "9**9**9 // 9**9**9", "9**9**9 % 7", "9**9**9 >> (1 << 40)",
+    "1 << (1 << 12)", "1 << (1 << 11)", "2 ** 2 ** 11", "2 ** 2 ** 10", "3 ** 2 ** 11",
+]
+# the same region where the exact-rational model would itself need astronomically many steps (bases 0 / 1 / floats with
+# giant exponents, giant negative exponents): implementation-side oracle only (terminates, clean kind, size bound)
+GIANT_EXPRS = ["0 ** 10**30", "1 ** 10**30", "(-1) ** 10**30", "True ** 10**30", "False ** 10**30", "0 << 10**30", "False << 10**30", "0 >> 10**30",
+               "x >> 10**30", "1.5 ** 10**30", "0.5 ** 10**30", "2 ** -(2 ** 40)", "2 ** -(10**30)", "2.0 ** 2 ** 20", "2 ** 2.0 ** 20", "0 ** 2**40",
+               "x ** 10**30", "b ** 10**30", "10**30 ** 0", "0 * 10**30 ** 2", "y ** 10**6", "(x - x) ** 10**30", "1 ** 1 ** 10**30"]
+# F-C11-int-of-infinity: values int() / float() cannot convert (float infinities, NaN, integers beyond the float range)
+INF_EXPRS = ["1e999", "-1e999", "1e308 * 10", "float('inf')", "-float('inf')", "float('nan')", "max(1, 1e999)", "abs(-1e999)", "1e999 if 1 else 0",
+             "1e999 - 1e999", "[1e999]", "(1e999,)", "[1, 1e999, 3]", "2 ** 2000", "-(2 ** 3000)", "0x1" + "0" * 300, "[2 ** 2000]", "1 << 4095",
+             "[0, 0, 0, 0, 0, 0, 0, 1e999]", "[float('nan')]", "1e999 * 0", "int(1e999)", "float(2 ** 2000)", "[0, 0, 0, 0, 0, 0, 0, -1e999]"]
+
+
+def deep_exprs():
+    """F-C11-recursion-error: expressions deeper than CPython's recursion limit (ast construction, the recursive
+    evaluator and translator), and ones just below it"""
+    out = []
+    for n in (150, 400, 900, 1200, 3000, 20000):
+        out.append(" + ".join(["1"] * n))
+        out.append(" - ".join(["x"] * n))
+    for n in (150, 900, 3000):
+        out += ["-" * n + "1", "not " * n + "1", "~" * n + "1", " * ".join(["2"] * n), "1 if 1 else " * n + "2", "'a' + " * n + "'a'",
+                "s" + ".a" * n, "f" + "()" * n, "xs" + "[0]" * n, "1 + (" * n + "1" + ")" * n, "[" * n + "1" + "]" * n, "(" * n + "1" + ")" * n,
+                " and ".join(["1"] * n), " < ".join(["1"] * n), "max(" * n + "1" + ")" * n, "int(" * n + "1" + ")" * n, "-(" * n + "1" + ")" * n,
+                "[" + ", ".join(["1"] * n) + "]", "lambda: " * n + "1", " ** ".join(["1"] * n), " << ".join(["1"] * n)]
+    return out
+
+
+# scripts whose blow-up needs several lines: the folded binding of one line feeds the next
+def chain_scripts():
+    out = []
+    for step in ("a = a * a", "a = a ** 2", "a = a << a", "a = a * a * a", "a *= a", "a = a ** a", "b = a * a\na = b * b"):
+        for n in (12, 40, 200):
+            for use in ("sleep(a)", "led.blink(a, 1)", "led2 = Led(a)", "if a > 1:\n    led.on()", "mon.write(a)", "ys = [a]"):
+                out.append("a = 3\n" + (step + "\n") * n + use + "\n")
+    return out
+
+
+def expr_size(src, env):
+    """(has a call, number of ast nodes, widest integer leaf: literals and bound names)"""
+    import ast
+    tree = ast.parse(src, mode="eval")
+    call = any(isinstance(n, ast.Call) for n in ast.walk(tree))
+    nodes = sum(1 for _ in ast.walk(tree))
+    leaf = 1
+    for n in ast.walk(tree):
+        if isinstance(n, ast.Constant) and isinstance(n.value, int):
+            leaf = max(leaf, int(n.value).bit_length())
+        if isinstance(n, ast.Name) and isinstance(env.get(n.id), int):
+            leaf = max(leaf, int(env[n.id]).bit_length())
+    return call, nodes, leaf
+
+
+def widest_int(w):
+    """widest integer inside an encoded result of c11_impl.enc (bits), None when there is none"""
+    if w[0] == "int":
+        return int(w[1], 16).bit_length()
+    if w[0] == "bool":
+        return 1
+    if w[0] == "special" and w[1] == "hugeint":
+        return 10 ** 9
+    if w[0] in ("list", "tuple"):
+        xs = [widest_int(x) for x in w[1]]
+        xs = [x for x in xs if x is not None]
+        return max(xs) if xs else None
+    return None
+
+
+FIXED_WITNESS = {
+    "F-C11-exponent-blowup": "sleep(9**9**9)\n",
+    "F-C11-int-of-infinity": "led.blink(1e999, 1)\n",
+    "F-C11-recursion-error": "y = " + " + ".join(["1"] * 3000) + "\n",
+}
+
+
+def replay_fixed(ctx, stats):
+    """the witnesses of the repaired findings: a fixed entry suppresses nothing - a witness that fails again is a
+    violation of the property (with the witness as replay), not a known finding.  Returns the ids that regressed."""
+    back = set()
+    fixed = {f["id"]: f for f in ctx.findings if f.get("kind") == "fixed"}
+    for fid, tail in FIXED_WITNESS.items():
+        if fid not in fixed:
+            continue
+        text = HEADER + tail
+        r = C.run_impl("c11_impl.py", {"cases": [["script", text]], "limit": 8})[0]
+        stats[f"fixed-witness:{fid}:{r['exc'] or 'accepted'}"] += 1
+        if r["exc"] not in CLEAN or r["audit"]:
+            back.add(fid)
+            what = ("did not terminate within 8 s" if r["exc"] == "Timeout" else f"raised {r['exc']}")
+            ctx.fail(f"the repaired defect {fid} is back: transpiling its witness {what} ({fixed[fid].get('fixed', '')})",
+                     {"kind": "fixed-witness", "finding": fid, "text": text}, "firmware source or ValueError, promptly", r, key="fixed:" + fid)
+    if "F-C11-exponent-blowup" in fixed:
+        r = C.run_impl("c11_impl.py", {"cases": [["blowup", 12], ["blowup", 16], ["blowup", 20]], "limit": 30})
+        got = [x.get("bits") for x in r]
+        stats["fixed-witness:2**2**n:" + ("refused" if got == [None, None, None] else "folded")] += 1
+        if got != [None, None, None] or any(x.get("exc") != "ValueError" for x in r):
+            back.add("F-C11-exponent-blowup")
+            ctx.fail("the repaired defect F-C11-exponent-blowup is back: _eval_const('2**2**n', {}) for n = 12, 16, 20 is folded (bit lengths of the results) instead of refused",
+                     {"kind": "fixed-witness", "finding": "F-C11-exponent-blowup", "expr": "2**2**n", "n": [12, 16, 20], "env": {}},
+                     "ValueError (constant too large to fold)", r, key="fixed:F-C11-exponent-blowup:eval")
+    return back
 
 
 def run(ctx: C.Ctx):
@@ -207,16 +322,47 @@ def run(ctx: C.Ctx):
     cdir.mkdir(parents=True, exist_ok=True)
     canary = str(cdir / "canary")
 
+    # ---------------- 0. the witnesses of the repaired findings (fixed entries suppress nothing)
+    regressed = replay_fixed(ctx, stats)
+    blowup_back = "F-C11-exponent-blowup" in regressed
+    if blowup_back:
+        # every tower would run into the time limit: the regression is already reported with its witness
+        stats["skipped:blowup-streams (F-C11-exponent-blowup is back)"] += 1
+    tables = C.run_impl("c11_impl.py", {"cases": [["tables"]]})[0]
+    max_bits = tables.get("max_const_bits") or 4096
+
     # ---------------- 1. evaluator: model (result + primitive trace) vs real _eval_const; whitelist oracle
     cases = L.gen_eval_cases(ctx, 3000 if thorough else 700)
     hostile = [(h, L.ENV_POOL[0]) for h in hostile_exprs(canary) if L.src_ok(h)]
     cases = cases + hostile
-    impl = C.run_impl("c11_impl.py", {"cases": [["expr", s, L.impl_env(e)] for s, e in cases]})
-    model = ctx.model([[0, L.enc_cenv(e), W.enc_src(s)] for s, e in cases]) if ctx.exe else [None] * len(cases)
+    n_model = len(cases)
+    if not blowup_back:
+        # the region F-C11-exponent-blowup used to exclude: towers / giant shifts / wide products, and random integer
+        # expressions whose exponents and shift counts are drawn around and beyond the size bound
+        big = [(e, env) for e in BLOWUP_EXPRS for env in L.ENV_POOL[:2]]
+        for _ in range(1500 if thorough else 400):
+            big.append((W.gen_expr(rng, rng.choice([1, 2, 2, 3, 3, 4]), names=("x", "b"), kinds=rng.choice([("int",), ("int", "bool")]),
+                                   allow_calls=False, allow_div=False, big_rhs=True), rng.choice(L.ENV_POOL[:4])))
+        big = [(s, e) for s, e in big if L.src_ok(s)]
+        cases = cases + big
+        n_model = len(cases)
+        cases = cases + [(e, env) for e in GIANT_EXPRS for env in L.ENV_POOL[:2]]      # implementation-side oracle only
+    impl = C.run_impl("c11_impl.py", {"cases": [["expr", s, L.impl_env(e)] for s, e in cases], "limit": 10}, timeout=3600)
+    model = ctx.model([[0, L.enc_cenv(e), W.enc_src(s)] for s, e in cases[:n_model]]) if ctx.exe else []
+    model = list(model) + [None] * (len(cases) - len(model))
     distinct = set()
     for (src, env), r, m in zip(cases, impl, model):
         case = {"expr": src, "env": {k: ("<marker>" if v is L.MARK else v) for k, v in env.items()}}
         stats["expr:" + (r["res"][0] if r["res"][0] == "ok" else r["res"][1])] += 1
+        # -- size of the folded integers (C11_fold_bits_bounded on the real evaluator; calls can read sizes from floats / strings)
+        if r["res"][0] == "ok":
+            wide = widest_int(r["res"][1])
+            call, nodes, leaf = expr_size(src, env)
+            if wide is not None:
+                stats["size:" + ("<=64" if wide <= 64 else "<=bound/2" if wide <= max_bits // 2 else "<=bound" if wide <= max_bits else ">bound")] += 1
+            if wide is not None and not call and wide > max(max_bits, leaf) + nodes:
+                ctx.fail(f"_eval_const folded an integer of {wide} bits: more than max(bound {max_bits}, widest leaf {leaf}) + {nodes} nodes",
+                         case, f"at most {max(max_bits, leaf) + nodes} bits, or ValueError", f"{wide} bits", key="eval-size")
         # -- oracle on the implementation
         bad = [b for b in r["builtins"] if b in DENY_BUILTINS or b.startswith(("posix.", "nt.", "os.", "io.", "_io.", "subprocess.", "socket.", "_socket.", "importlib.", "_imp.", "pycall:"))]
         if bad:
@@ -288,9 +434,32 @@ def run(ctx: C.Ctx):
     for p in pos:
         for e in ERR_SOURCES:
             scripts.append(("error-source", HEADER + p.replace("{H}", e) + "\n"))
-    gen_srcs = [s for s, _ in L.gen_eval_cases(ctx, 400 if thorough else 120) if depth_ok(s)]
+    gen_srcs = [s for s, _ in L.gen_eval_cases(ctx, 400 if thorough else 120)]
     for i, e in enumerate(gen_srcs):
         scripts.append(("generated-expr", HEADER + pos[i % len(pos)].replace("{H}", e) + "\n"))
+    # the regions the repaired findings used to exclude, in every argument position
+    for p in pos:
+        for e in INF_EXPRS:
+            scripts.append(("infinity", HEADER + p.replace("{H}", e) + "\n"))
+    deep = deep_exprs()
+    for i, e in enumerate(deep):
+        for j in range(8 if thorough else 2):
+            scripts.append(("deep", HEADER + pos[(i * 7 + j * 11) % len(pos)].replace("{H}", e) + "\n"))
+    for p in (pos[1], pos[20], pos[2], pos[5]):
+        scripts.append(("deep", HEADER + p.replace("{H}", deep[8]) + "\n"))           # the 3000-term sum of the old witness
+    if not blowup_back:
+        if thorough:
+            bl = [(p, e) for p in pos for e in BLOWUP_EXPRS]
+        else:
+            bl = [(p, e) for p in pos for e in rng.sample(BLOWUP_EXPRS, 4)] + [(pos[(7 * i + j) % len(pos)], e) for i, e in enumerate(BLOWUP_EXPRS) for j in range(3)]
+            bl += [(p, BLOWUP_EXPRS[0]) for p in pos]
+        for p, e in bl:
+            scripts.append(("blowup", HEADER + p.replace("{H}", e) + "\n"))
+        for p in pos[:12] if not thorough else pos:
+            for e in GIANT_EXPRS[:8] if not thorough else GIANT_EXPRS:
+                scripts.append(("blowup", HEADER + p.replace("{H}", e) + "\n"))
+        for t in chain_scripts():
+            scripts.append(("chain", HEADER + t))
     seeds = [ref_script] + [s for _, s in scripts[:40]]
     for t in python_sources(rng, 60 if thorough else 25):
         scripts.append(("python-source", t))
@@ -318,32 +487,26 @@ def run(ctx: C.Ctx):
         if r["exc"] is None and kind == "hostile":
             distinct.add(text)
 
-    # ---------------- 3. known findings
-    listed = {f["id"]: f for f in ctx.findings if f.get("kind") != "fixed"}
-    if "F-C11-exponent-blowup" in listed:
-        r = C.run_impl("c11_impl.py", {"cases": [["blowup", 12], ["blowup", 16], ["blowup", 20]], "limit": 30})
-        if [x.get("bits") for x in r] == [2 ** 12 + 1, 2 ** 16 + 1, 2 ** 20 + 1]:
-            ctx.known(f"F-C11-exponent-blowup: {listed['F-C11-exponent-blowup']['what']}")
-    if "F-C11-int-of-infinity" in listed:
-        r = C.run_impl("c11_impl.py", {"cases": [["script", HEADER + "led.blink(1e999, 1)\n"]], "limit": 30})
-        if r[0]["exc"] == "OverflowError":
-            ctx.known(f"F-C11-int-of-infinity: {listed['F-C11-int-of-infinity']['what']}")
-    if "F-C11-recursion-error" in listed:
-        r = C.run_impl("c11_impl.py", {"cases": [["script", HEADER + "y = " + " + ".join(["1"] * 3000) + "\n"]], "limit": 30})
-        if r[0]["exc"] == "RecursionError":
-            ctx.known(f"F-C11-recursion-error: {listed['F-C11-recursion-error']['what']}")
+    # ---------------- 3. known findings: none is listed as open (the three of this property are kind=fixed and were
+    # replayed in step 0); an entry of kind=finding added later must get its replay here
+    for f in ctx.findings:
+        if f.get("kind") != "fixed":
+            ctx.disagree("known_findings lists an open finding this check has no replay for", f.get("id"), None, None)
     shutil.rmtree(cdir, ignore_errors=True)
 
     ctx.coverage.update({
         "evaluations": len(cases) + len(scripts),
         "distinct_nontrivial": len(distinct),
-        "rule": "1 (proof tie): the C03 expression stream (boundary expressions x environments + seeded random expressions) plus hostile expression forms, each through the extracted instrumented model (result, primitive trace) and the real _eval_const under recording wrappers (operator module alias, _SAFE_CASTS values, max/min/abs in the parser's namespace) with sys.setprofile / sys.addaudithook; non-trivial = distinct (expression, environment) on which the real evaluator performed at least one primitive operation. 2 (observed, support): hostile expression forms (file / process / import / eval / attribute / lambda / comprehension / walrus / f-string payloads writing a canary file) in every argument position of the property's quantifier (pins, delays, conditions, loop bounds, list items, f-strings, decorators, defaults, device constructor keywords, expression statements), generated expressions in the same positions, real Python sources (the project's own files and standard-library modules), byte noise / shuffled / truncated / corrupted scripts - each through the real parse()+emit() with audit hook, canary check, exception kind and a 30 s limit; non-trivial = distinct hostile script that was accepted (firmware produced) - the ones where evaluating the payload would have been possible.",
+        "rule": "0: the witnesses of the repaired findings. 1 (proof tie): the C03 expression stream (boundary expressions x environments incl. the values around the size bound + seeded random expressions) plus hostile expression forms, plus towers / giant shifts / wide products and seeded random integer expressions with exponents and shift counts around and beyond the size bound (size oracle max(bound, widest leaf) + nodes on every call-free result), each through the extracted instrumented model (result, primitive trace) and the real _eval_const under recording wrappers (operator module alias, _SAFE_CASTS values, max/min/abs in the parser's namespace) with sys.setprofile / sys.addaudithook; non-trivial = distinct (expression, environment) on which the real evaluator performed at least one primitive operation. 2 (observed, support): hostile expression forms (file / process / import / eval / attribute / lambda / comprehension / walrus / f-string payloads writing a canary file) in every argument position of the property's quantifier (pins, delays, conditions, loop bounds, list items, f-strings, decorators, defaults, device constructor keywords, expression statements), generated expressions in the same positions, real Python sources (the project's own files and standard-library modules), byte noise / shuffled / truncated / corrupted scripts, plus the formerly excluded regions (infinity / NaN / beyond-float-range values x every position incl. all int()/float() resolver sites, towers-shifts-products x positions, multi-line squaring chains, expressions 150..20000 levels deep x positions) - each through the real parse()+emit() with audit hook, canary check, exception kind and a 30 s limit; non-trivial = distinct hostile script that was accepted (firmware produced) - the ones where evaluating the payload would have been possible.",
         "samples": [{"expr": hostile[0][0]}, {"script": scripts[0][1][len(HEADER):]}, {"script": scripts[len(pairs) // 2][1][len(HEADER):]}],
         "distribution": dict(sorted(stats.items())),
         "max_wall_s_per_script": max(walls) if walls else 0,
-        "guard": "expressions with bounded magnitude (no ** / << towers: F-C11-exponent-blowup), no float overflowing to infinity in a numeric argument (F-C11-int-of-infinity) and nesting depth < 200 (F-C11-recursion-error)",
+        "guard": "none - no finding of this property is open: the regions the three repaired findings used to exclude are generated (towers / giant shifts / wide products as expressions, in every argument position and as multi-line chains; infinities, NaN and integers beyond the float range in every numeric argument; expressions of 150 .. 20000 levels); C11_fold_bits_bounded carries the modelling guard arith_only (no calls), the implementation-side size oracle covers every call-free expression",
+        "fixed_findings_replayed": sorted(FIXED_WITNESS),
+        "regressed": sorted(regressed),
+        "max_const_bits": max_bits,
         "unmodelled": ["the Python process executing parser.py / emitter.py (regex matching, string building): observed by audit hook + canaries + exception kinds, support only - not proved",
-                       "CPython's recursion limit and int->str digit limit", "IEEE infinities / NaN (the model's floats are exact rationals): int(inf) at the folding call sites is the listed finding F-C11-int-of-infinity", "target() reading the file (C12)", "ast.literal_eval fallbacks (flash_pattern, ultrasonic model): exercised by the hostile scripts, not modelled",
+                       "CPython's recursion limit and int->str digit limit (a RecursionError is turned into ValueError by parse(): observed on the deep stream, not modelled)", "IEEE infinities / NaN and the binary64 range (the model's floats are exact rationals): int(inf) / float(<huge int>) at the folding call sites fall back to the run-time expression - observed on the infinity stream in every numeric position, not modelled", "growth of folded strings across lines (s = s + s repeated: 2^n characters after n lines; ends in a caught MemoryError and the run-time expression, about 10 s under an 8 GB limit) - outside the three repaired findings, not generated", "target() reading the file (C12)", "ast.literal_eval fallbacks (flash_pattern, ultrasonic model): exercised by the hostile scripts, not modelled",
                        "environment reads (os.environ) have no audit event: only the canary / builtins profile would show them inside _eval_const"],
         "trusted_base": C.COMMON_TRUSTED + ["harness/gen/safecasts.py (operator / cast / safe-name tables of parser.py)",
                                             "CPython audit events and sys.setprofile c_call events as the observation of 'access' and 'call' (support part)"],
